@@ -20,7 +20,7 @@ RULE = ("Hypothesis draws a history (<= 12 steps, <= 5 solves) over the alphabet
         "with new variable objects and performs the same call; status, raised exception type, values, objective "
         "(1e-9), variable names and get_bounds() must be equal.  Non-trivial = >= 2 solves with an edit between "
         "them that changes the fresh answer.")
-BUDGET = {"quick": {"workers": 16, "examples": 30}, "thorough": {"workers": 16, "examples": 800}}
+BUDGET = {"quick": {"workers": 16, "examples": 40}, "thorough": {"workers": 16, "examples": 800}}
 ASSUMPTIONS = ["optyx + SciPy are deterministic for identical inputs, so edited and fresh problems must agree to rounding"]
 MANIFEST = {
  "technique": "model-based property testing (Hypothesis): generated edit/solve histories; every observation compared with a freshly built problem in the current state",
@@ -73,6 +73,7 @@ CONSTRAINTS = [
     ("scalar", ["vsum", V], "==", 3.0),
 ]
 METHODS = ["auto", "auto", "linprog", "SLSQP", "trust-constr", "L-BFGS-B"]
+CONVEX = [1, 2, 8]  # strictly convex in every variable they mention... (5 and 4 are convex but mention fewer variables)
 BOUNDS = [None, -2, 0, 1, 3, -4, 2, 5]
 INIT_LB, INIT_UB = -10.0, 10.0
 
@@ -81,8 +82,14 @@ INIT_LB, INIT_UB = -10.0, 10.0
 def histories(draw):
     steps = []
     nsolves = 0
-    # always start with an objective
-    steps.append([draw(st.sampled_from(["minimize", "maximize"])), draw(st.integers(0, len(OBJECTIVES) - 1))])
+    free_start = draw(st.integers(0, 4)) == 0     # every variable completely free at the beginning
+    if draw(st.integers(0, 3)) > 0:
+        steps.append([draw(st.sampled_from(["minimize", "maximize"])), draw(st.integers(0, len(OBJECTIVES) - 1))])
+    else:
+        # constraints (and reads) BEFORE the first objective
+        for _ in range(draw(st.integers(1, 3))):
+            steps.append(draw(st.sampled_from([["subject_to", draw(st.integers(0, len(CONSTRAINTS) - 1))], ["variables"], ["n_variables"]])))
+        steps.append([draw(st.sampled_from(["minimize", "maximize"])), draw(st.integers(0, len(OBJECTIVES) - 1))])
     for _ in range(draw(st.integers(2, 11))):
         k = draw(st.sampled_from(["minimize", "maximize", "flip", "flip", "subject_to", "subject_to", "subject_to_list", "set_lb", "set_ub",
                                   "solve", "solve", "solve", "variables", "n_variables", "get_bounds"]))
@@ -105,7 +112,11 @@ def histories(draw):
             steps.append([k])
     if nsolves == 0:
         steps.append(["solve", draw(st.sampled_from(METHODS))])
-    return {"steps": steps}
+    if free_start:
+        # keep free-start histories bounded below: strictly convex objectives, minimised
+        steps = [(["minimize", CONVEX[st_[1] % len(CONVEX)]] if st_[0] in ("minimize", "maximize") else st_) for st_ in steps
+                 if st_[0] != "flip"]
+    return {"steps": steps, "free_start": free_start}
 
 
 def strategy(tier):
@@ -117,9 +128,9 @@ def sample_repr(case):
 
 
 class State:
-    def __init__(self):
+    def __init__(self, free=False):
         self.obj, self.sense, self.cons = None, "minimize", []
-        self.bounds = {v: [INIT_LB, INIT_UB] for v in VARS}
+        self.bounds = {v: ([None, None] if free else [INIT_LB, INIT_UB]) for v in VARS}
 
     def env(self):
         e = {"scalars": [dict(name=s["name"], lb=self.bounds[s["name"]][0], ub=self.bounds[s["name"]][1]) for s in ENV["scalars"]],
@@ -195,9 +206,10 @@ def check(case):
     from optyx import Problem
 
     classes = []
-    state = State()
+    state = State(case.get("free_start", False))
+    classes.append("free-start" if case.get("free_start") else "boxed-start")
     with quiet():
-        b = BuildAlg(State().env())
+        b = BuildAlg(State(case.get("free_start", False)).env())
         objs = {"x": b.scalars["x"], "y": b.scalars["y"], "z": b.scalars["z"], "w10": b.scalars["w10"], "v": b.vectors["v"]}
         P = Problem()
         solves, changed_between, last_solve_obs, edits_since = 0, False, None, []
